@@ -1,7 +1,32 @@
 (* The short meaning of each TerminalCommand, as the operations a VT/xterm
    terminal is to perform (specification side of C05).  Written from the
    documentation of the commands (src/terminal.rs doc comments) and of the
-   control functions, not from the encoder. *)
+   control functions, not from the encoder.
+
+   The observable is the LIST OF OPERATIONS the interpreter extracts (cursor,
+   erase, scroll, mode, SGR transformer, OSC/DCS requests), not a screen
+   contents model.
+
+   SPECIFICATION DECISIONS.  Where the documentation of a command leaves its
+   meaning open, the meaning below was FIXED BY US and agrees with what the
+   encoder does today; for these points the theorem is a round trip, not an
+   independent judgement:
+     D1 Title t            = OSC 0 (icon name AND window title), xterm's usual "set title";
+                             OSC 2 (title only) would be reported as a difference
+     D2 ScrollRegion s e   with s >= e (empty or inverted region) = reset the margins (CSI r)
+     D3 KeyboardLevel l    without the kitty keyboard capability = nothing
+     D4 DecModeSet AltScreen also sets the kitty keyboard level (KEYBOARD_LEVEL on entry,
+                             0 on exit) when the capability is present: the alternate
+                             screen has its own keyboard-mode stack
+     D5 colours            alpha is not transmitted (a terminal colour has none); under Gray
+                             the four levels are the system colours 0 < 8 < 7 < 15 (black,
+                             bright black, white, bright white) and an underline colour has
+                             no grey rendering (nothing is sent)
+     D6 CursorMove 0 0, Scroll 0, EraseChars 0, Image, ImageErase = nothing (images are
+                             drawn by the image handlers, not by this encoder)
+     D7 Termcap []         = Termcap [""] (the wire format cannot tell them apart)
+     D8 Char DEL, Char ST  = nothing (a terminal ignores them in ground state)
+     D9 Raw bytes          = whatever the bytes mean (tautological; outside self-containedness) *)
 From Coq Require Import List NArith ZArith Bool.
 From SNT Require Import Encoder.Decimal Encoder.Utf8 Encoder.Encode Encoder.VT.
 Import ListNotations.
@@ -26,6 +51,15 @@ Definition uline_of_style (u : ustyle) : uline :=
   | UNone => LNone | UStraight => LSingle | UDouble => LDouble | UCurly => LCurly
   | UDotted => LDotted | UDashed => LDashed
   end.
+
+(* KNOWN FINDING C05-char-introducer.  `Char(c)` is written as the bare character.  For the
+   seven characters that OPEN a control sequence or control string -- ESC, and the C1
+   controls DCS (U+0090), SOS (U+0098), CSI (U+009B), OSC (U+009D), PM (U+009E), APC
+   (U+009F) -- the output is not a self-contained sequence: the parser is left inside an
+   escape sequence and swallows what follows (Props/C05.v, C05_char_introducer_refuted).
+   They are outside the domain of the meaning theorems. *)
+Definition char_introducer (c : N) : bool :=
+  (c =? 27) || (c =? 144) || (c =? 152) || (c =? 155) || (c =? 157) || (c =? 158) || (c =? 159).
 
 Section Denote.
   Variable pal256 : rgba -> N.
@@ -93,7 +127,12 @@ Section Denote.
 
   Definition denote (cp : caps) (c : cmd) : list op :=
     match c with
-    | Char c => if is_c0 c then [OExec c] else [OPrint c]
+    | Char c =>
+        (* a graphic character is printed; a C0 / C1 control is executed; DEL and a stray ST
+           (U+009C) are ignored by a terminal *)
+        if (c =? 127) || (c =? 156) then []
+        else if is_c0 c || is_c1 c then [OExec c]
+        else [OPrint c]
     | Face f => [OSgr (face_trans (cp_depth cp) f)]
     | FaceModify m =>
         let t := fm_trans (cp_depth cp) m in
@@ -128,7 +167,10 @@ Section Denote.
         else [ODecstbm None None]
     | Reset => [ORis]
     | Image | ImageErase => []
-    | Termcap names => [OXtgettcap names]
+    | Termcap names =>
+        (* on the wire the names are joined by `;`: no name at all and one empty name are the
+           same request *)
+        [OXtgettcap (match names with [] => [[]] | _ => names end)]
     | Color TBackground color => [ODynColour 11 (spec_of color)]
     | Color TForeground color => [ODynColour 10 (spec_of color)]
     | Color (TPalette index) color => [OPalette index (spec_of color)]
@@ -152,7 +194,7 @@ Definition text_ok (cs : list N) : bool := forallb (fun c => scalar_ok c && negb
 
 Definition cmd_ok (c : cmd) : bool :=
   match c with
-  | Char c => scalar_ok c && negb (between 127 c 159) && negb (c =? 27)
+  | Char c => scalar_ok c && negb (char_introducer c)
   | Face f => orgba_ok (f_fg f) && orgba_ok (f_bg f) && (f_bits f <? 256)
   | FaceModify m => orgba_ok (fm_fg m) && orgba_ok (fm_bg m) && orgba_ok (fm_ucolor m)
   | CursorTo r c => (r <=? usize_max) && (c <=? usize_max)
@@ -160,8 +202,7 @@ Definition cmd_ok (c : cmd) : bool :=
   | EraseChars n => n <=? usize_max
   | Scroll n => ((i32_min <=? n) && (n <=? i32_max))%Z
   | ScrollRegion s e => (s <=? usize_max) && (e <=? usize_max)
-  | Termcap names =>
-      forallb (forallb byte_ok) names && match names with [[]] => false | _ => true end
+  | Termcap names => forallb (forallb byte_ok) names
   | Color name c =>
       orgba_ok c && match name with TPalette i => i <=? usize_max | _ => true end
   | Title t => text_ok t
